@@ -27,8 +27,8 @@ type genCfg struct {
 }
 
 var syntaxCfg = genCfg{
-	Names:    []string{"a", "b", "c", "$x", "_", "é", "truex", "nul", "a1", "len", "max"},
-	SelNames: []string{"k", "b", "null", "typeof", "this", "é", "$y", "true"},
+	Names:    []string{"a", "b", "c", "$x", "_", "é", "truex", "nul", "a1", "len", "max", "__v", "___", "$$", "a$", "thisx"},
+	SelNames: []string{"k", "b", "null", "typeof", "this", "é", "$y", "true", "__v", "_", "ctx"},
 	Nums:     []string{"1", "0", "2.5", ".5", "1e3", "1_000", "007", "1.", "1E-2", "12345678901234567890.123"},
 	Strs:     []string{"", "s", "it's", "a\"b", "中", "x\ny", "\\"},
 	Kws:      []string{"null", "true", "false", "this", "ctx"},
